@@ -413,6 +413,7 @@ class Explorer:
             it.alloc_cap = None
             it.map_order_hook = None
             it.store_hook = None
+            it.syncmaps = {}
             it.solver.push()
             outcome = 'ok'
             try:
